@@ -359,9 +359,12 @@ def check_catalogue(res, case):
 
 
 # ---------------------------------------------------------------------------
+EOLS = [u"\n", u"\n", u"\n", u"\r\n", u"\r"]
+
+
 def soup_st(max_lines=30):
-    return st.lists(st.sampled_from(POOL), min_size=0, max_size=max_lines).map(
-        lambda ls: {"kind": "text", "origin": "soup", "text": u"\n".join(ls) + (u"\n" if ls else u"")})
+    return st.builds(lambda ls, eol: {"kind": "text", "origin": "soup", "text": eol.join(ls) + (eol if ls else u"")},
+                     st.lists(st.sampled_from(POOL), min_size=0, max_size=max_lines), st.sampled_from(EOLS))
 
 
 def structured_soup_st():
